@@ -337,7 +337,7 @@ def getLarge (i : Nat) : ExtFloat := { mant := base10LargeMantissa.getD i 0, exp
         else if large_index as usize >= powers.large.len() { fp.mant = 1 << 63; fp.exp = 0x7FF; true }
         else {
             let mut errors: u32 = 0;
-            if truncated { errors += u64::error_halfscale(); }
+            if truncated { errors += u64::error_scale(); }
             match fp.mant.overflowing_mul(powers.get_small_int(small_index as usize)) {
                 (_, true) => { fp.normalize(); fp.imul(&powers.get_small(small_index as usize)); errors += u64::error_halfscale(); }
                 (mant, false) => { fp.mant = mant; fp.normalize(); }
@@ -357,7 +357,7 @@ def multiplyExponentExtended (c : FC) (fp : ExtFloat) (exponent : Int) (truncate
   if exponent < 0 then ({ fp with mant := 0 }, true)
   else if largeIndex ≥ base10LargeMantissa.length then ({ mant := 1 <<< overflowMantShift, exp := overflowExp }, true)
   else
-    let errors : Nat := if truncated then errorHalfscale else 0
+    let errors : Nat := if truncated then errorScale else 0
     let prod := fp.mant * base10SmallIntPowers.getD smallIndex 0
     let (fp, errors) :=
       if prod ≥ 2 ^ 64 then (mul (normalize fp).1 (getSmall smallIndex), errors + errorHalfscale)
@@ -440,7 +440,10 @@ def parseMantissaLoop (maxDigits step : Nat) : Bytes → Nat → Nat → Nat →
         let mut counter = 0; let mut value: Limb = 0; let mut i: usize = 0; let mut result = Bigint::default();
         for … { … }                                                    // `parseMantissaLoop`
         if counter != 0 { result.imul_small(small_powers[counter]); result.iadd_small(value); }
-        if i < integer.len() + fraction.len() { result.imul_small(10); result.iadd_small(1); }
+        if i < integer.len() + fraction.len() {
+            result.imul_small(10);
+            if integer.iter().chain(fraction).skip(i).any(|&digit| digit != b'0') { result.iadd_small(1); }
+        }
         result
     }``` -/
 def parseMantissa (c : FC) (integer fraction : Bytes) : Nat :=
@@ -448,7 +451,10 @@ def parseMantissa (c : FC) (integer fraction : Bytes) : Nat :=
   let maxDigits := c.maxDigits - 1
   let (counter, value, i, result) := parseMantissaLoop maxDigits step (integer ++ fraction) 0 0 0 0
   let result := if counter != 0 then result * pow10_64.getD counter 0 + value else result
-  if i < integer.length + fraction.length then result * 10 + 1 else result
+  if i < integer.length + fraction.length then
+    let result := result * 10
+    if ((integer ++ fraction).drop i).any (· != 0x30) then result + 1 else result
+  else result
 
 /-- `fn bh_extended<F>(f: F) -> ExtendedFloat { let b = b_extended(f); ExtendedFloat { mant: (b.mant << 1) + 1, exp: b.exp - 1 } }` -/
 def bhExtended (c : FC) (f : Nat) : ExtFloat :=
@@ -727,8 +733,9 @@ def goInt (sig : Nat) : Bytes → Nat × Option Bytes
   | [] => (sig, none)
   | c :: cs => if Num.overflowMacro sig (dig c) u64Max then (sig, some (c :: cs)) else goInt (sig * 10 + dig c) cs
 
-/-- `parse_integer` + `parse_number` of the `float_roundtrip` build on a scanned literal: which leaf, which arguments -/
-def deCall (p : Parts) : Call :=
+/-- `parse_integer` + `parse_number` of the `float_roundtrip` build on a scanned literal: which leaf, which arguments
+    (`single` = `self.single_precision` matters only for a negative integer beyond `i64`) -/
+def deCall (single : Bool) (p : Parts) : Call :=
   match goInt 0 p.int with
   | (sig, some rest) => parseLongInteger sig rest p.frac p.exp
   | (sig, none) =>
@@ -741,11 +748,15 @@ def deCall (p : Parts) : Call :=
         -- `(significand as i64).wrapping_neg()`, float if that is ≥ 0 (underflow or `-0`): `-(significand as f64)`
         let asI64 : Int := if sig ≥ 2 ^ 63 then (sig : Int) - 2 ^ 64 else sig
         let negv : Int := if asI64 == -(2 ^ 63) then asI64 else -asI64
-        .number (if negv ≥ 0 then .f64 (Spec.Ieee.F64.neg (Spec.Ieee.F64.ofU64 sig)) else .i64 negv)
+        -- (repaired) `if self.single_precision { -(significand as f32) as f64 } else { -(significand as f64) }`
+        .number (if negv ≥ 0 then
+            .f64 (if single then Spec.Ieee.F32.toF64 (Spec.Ieee.F32.neg (Spec.Ieee.F32.ofU64 sig))
+                  else Spec.Ieee.F64.neg (Spec.Ieee.F64.ofU64 sig))
+          else .i64 negv)
 
 /-- the number `de.rs` + lexical produce for a scanned literal under `float_roundtrip`;
     `single` is `self.single_precision` (set by `do_deserialize_f32`) -/
-def deFloatRoundtrip (single : Bool) (p : Parts) : NRes := runCall single (!p.neg) (deCall p)
+def deFloatRoundtrip (single : Bool) (p : Parts) : NRes := runCall single (!p.neg) (deCall single p)
 
 /-- which algorithm of lexical decides a call (for the evidence histogram and the known-finding tags) -/
 inductive Path where
